@@ -124,7 +124,7 @@ func TestC09(t *testing.T) {
 	compiledEvery = 80 // a compiled Poseidon permutation costs ~1 s
 	r := s.r
 	defer r.Flush()
-	r.Rule("permutation: 12-element states (all-equal edge values incl. 0 and p-1, single-hot edge values, random/edge mixtures) vs the naive reference permutation; HashNoPad on inputs of length 0..40 whose elements are canonical or value+k*p (k up to 2^60; inputs are reduced first) vs the reference sponge on the residues; HashNToMNoPad with 1..20 outputs; HashNoPad applied 2-3 times in one circuit to prefixes of one (partly non-canonical) vector held in one backing array - the caller's values must stay what they were; the extension-field layer helpers composed as in the Poseidon gate vs the reference fast schedule over GF(p^2); uniqueness: every dynamic hint call of one permutation (1650) substituted by generated dishonest tuples must be rejected.  Non-trivial = state not all-zero / input length >= 1 / substituted tuple differs; distinct = inputs (+ hint index, strategy).")
+	r.Rule("permutation: 12-element states (all-equal edge values incl. 0 and p-1, single-hot edge values, random/edge mixtures) vs the naive reference permutation; HashNoPad on inputs of length 0..40 whose elements are canonical or value+k*p (k up to 2^60; inputs are reduced first) vs the reference sponge on the residues; HashNToMNoPad with 1..20 outputs; HashNoPad applied 2-3 times in one circuit to prefixes of one (partly non-canonical) vector held in one backing array - the caller's values must stay what they were; the extension-field layer helpers composed as in the Poseidon gate vs the reference fast schedule over GF(p^2); uniqueness: every dynamic hint call of one permutation (1650) substituted by generated dishonest tuples must be rejected.  A third of the hint calls (thorough: a drawn flavour) are substituted under the bit-decomposition range checker, where a rejected substitution is tried again with gnark's own decomposition hint answering dishonestly (digits = (value,0,..)): it must still be rejected.  Non-trivial = state not all-zero / input length >= 1 / substituted tuple differs; distinct = inputs (+ hint index, strategy).")
 	r.Assume("ref naive Poseidon reproduces plonky2's published all-zero vector and is what accepted the 5 real proofs", "engine semantics (C06)")
 
 	s.on("perm", func(b json.RawMessage) caseResult {
@@ -230,6 +230,13 @@ func TestC09(t *testing.T) {
 		if res.Outcome == eng.Accept {
 			return caseResult{Viol: "second-output/" + inj.Kind.String() + "/" + a.Subst.Strategy, Desc: fmt.Sprintf("Poseidon(%v): %s hint #%d (%s) outputs %v replaced by %v and the permutation is ACCEPTED (a second output exists)", a.State, inj.Kind, a.Index, inj.Caller, inj.Honest, inj.Subst)}
 		}
+		if eng.Mode(a.Mode) == eng.ModePlain {
+			// bit-decomposition flavour: the prover also answers gnark's own decomposition hint
+			r2, _ := gad.Run(eng.Options{Mode: eng.ModePlain, LumpBits: true, Plan: eng.Plan{a.Index: a.Subst.subst()}}, u64s(a.State), c09PermFn)
+			if r2.Outcome == eng.Accept {
+				return caseResult{Viol: "second-output-lumped-bits/" + inj.Kind.String() + "/" + a.Subst.Strategy, Desc: fmt.Sprintf("Poseidon(%v), bit-decomposition range checks: %s hint #%d (%s) outputs %v replaced by %v is ACCEPTED when the bit-decomposition hint also answers dishonestly (digits = (value,0,..)): a second output exists", a.State, inj.Kind, a.Index, inj.Caller, inj.Honest, inj.Subst)}
+			}
+		}
 		return caseResult{Info: map[string]any{"hint": inj.Kind.String(), "rejected_at": res.Site}}
 	})
 	if s.replay(t) {
@@ -318,7 +325,11 @@ func TestC09(t *testing.T) {
 				st := genState().Draw(rt, "state")
 				kind := c05KindAt(c05FindGadget("Poseidon"), idx)
 				sub := genSubst(kind).Draw(rt, "subst")
-				s.exec(rt, "inject", c09Inject{st, idx, toSubstJSON(sub), int(eng.ModeNative)}, "inject/"+kind.String())
+				mode, cls := eng.ModeNative, "inject/"
+				if idx%3 == 1 {
+					mode, cls = eng.ModePlain, "inject-bitdecomp/"
+				}
+				s.exec(rt, "inject", c09Inject{st, idx, toSubstJSON(sub), int(mode)}, cls+kind.String())
 			})
 		}
 	} else {
